@@ -56,9 +56,9 @@ Definition never_bad (f : list val -> val) : Prop :=
 Definition pkt_of (b : bytes) : bytes := firstn 188 (b ++ repeat 0 188).
 (* p[i] |= m *)
 Definition or_byte (p : bytes) (i m : N) : bytes := upd p i (N.lor (nthN p i) m).
-(* d := make([]byte, n%256); d[i] = byte(i)   (n >= 0 here) *)
+(* d := make([]byte, k); d[i] = byte(from + i) *)
 Fixpoint ramp (k : nat) (from : N) : bytes :=
-  match k with O => [] | S k' => from :: ramp k' (from + 1) end.
+  match k with O => [] | S k' => w8 from :: ramp k' (from + 1) end.
 (* a Go int used as a PID / program number: negative values match nothing; 8192 is outside the 13-bit range *)
 Definition pid_of (n : Z) : N := if (n <? 0)%Z then 8192 else Z.to_N n.
 (* for i := 0; i+188 <= len(b); i += 188 { .. b[i:i+188] .. } *)
@@ -75,11 +75,16 @@ Definition g_pkt_read (b : bytes) (n : Z) : cls :=
   >> (* AlignedPUSI: PayloadUnitStartIndicator, packet.PESHeader, NewPESHeader *)
      (if Pes.pkt_pusi p then on_ok (Pes.pkt_pes_header p) (fun hb => cl (Pes.new_pes_header hb)) else COk).
 
-(* pkt.setpayload: p.SetPayload(d) with d = 0,1,..,n%256-1, then both Payload accessors on the result *)
+(* totPayloadLen: n < 256 literally; 256, 257, 258 = freeSpace, freeSpace-1, freeSpace+1 of the packet (clamped to 0..300) *)
+Definition payload_len (p : bytes) (n : Z) : nat :=
+  if (n <? 0)%Z then O else
+  if (n <? 256)%Z || (258 <? n)%Z then Z.to_nat (n mod 256) else
+  let l := (Packet.freeSpace p + (if (n =? 256)%Z then 0 else if (n =? 257)%Z then -1 else 1))%Z in
+  Z.to_nat (Z.min 300 (Z.max 0 l)).
+(* pkt.setpayload: p.SetPayload(d) with d = 0,1,2,.. of the selected length, then both Payload accessors on the result *)
 Definition g_pkt_setpayload (b : bytes) (n : Z) : cls :=
   let p := pkt_of b in
-  let k := if (n <? 0)%Z then 0%Z else (n mod 256)%Z in
-  let r := Packet.SetPayload_m p (ramp (Z.to_nat k) 0) in
+  let r := Packet.SetPayload_m p (ramp (payload_len p n) 0) in
   cl (snd r) >> (cl (Packet.Payload_m (fst r)) >> cl (Packet.Payload_fn (fst r))).
 
 (* pkt.setpayloadfn: packet.SetPayload(p, d) (create.go) is a total function in Model/Create.v *)
@@ -109,15 +114,28 @@ Definition g_af_getters (b : bytes) (n : Z) : cls :=
   >> cl (AF.HasTransportPrivateData p) >> cl (AF.TransportPrivateData p)
   >> cl (AF.HasAdaptationFieldExtension p) >> cl (AF.AdaptationFieldExtension p).
 
-(* the setter selected by op = n % 20, exactly the switch of total.go (None: no call is made) *)
-Definition af_op (p0 : bytes) (op : Z) : option AF.op :=
-  let arg := [1; 2; 3] in
+(* totAFData: the data of SetTransportPrivateData (ext = false) / SetAdaptationFieldExtension (ext = true).
+   shape 0: {1,2,3}; 1..5: 1,2,3,.. of length L, L-1, L+1, room, 0 where L is the length byte stored at the field's
+   position (computed from the flags byte: AF.transportPrivateDataStart / AF.adaptationExtensionStart) and
+   room = stuffingEnd - position - 1 (N subtraction truncates at 0 like the clamps of total.go) *)
+Definition af_data (p : bytes) (ext : bool) (shape : Z) : bytes :=
+  if (shape <=? 0)%Z || (5 <? shape)%Z then [1; 2; 3] else
+  let pos := if ext then AF.adaptationExtensionStart p else AF.transportPrivateDataStart p in
+  let l := if pos <? 188 then nthN p pos else 0 in
+  let room := AF.stuffingEnd p - pos - 1 in
+  let k := if (shape =? 1)%Z then l else if (shape =? 2)%Z then l - 1 else if (shape =? 3)%Z then l + 1
+           else if (shape =? 4)%Z then room else 0 in
+  ramp (N.to_nat k) 1.
+(* the setter selected by op = n % 20, exactly the switch of total.go (None: no call is made);
+   p0 = totPkt(b), p = the same with the adaptation-field bit forced when asked *)
+Definition af_op (p0 p : bytes) (op shape : Z) : option AF.op :=
   match op with
   | 0 => Some (AF.OSetHasPCR true)   | 1 => Some (AF.OSetHasPCR false)
   | 2 => Some (AF.OSetHasOPCR true)  | 3 => Some (AF.OSetHasOPCR false)
   | 4 => Some (AF.OSetHasSplice false)
   | 5 => Some (AF.OSetHasTPD true)   | 6 => Some (AF.OSetHasTPD false)
-  | 7 => Some (AF.OSetTPD arg)       | 8 => Some (AF.OSetExt arg)
+  | 7 => Some (AF.OSetTPD (af_data p false shape))
+  | 8 => Some (AF.OSetExt (af_data p true shape))
   | 9 => Some (AF.OSetPCR 1)         | 10 => Some (AF.OSetSplice 1)
   | 11 => Some (AF.OSetAF (upd (or_byte p0 3 32) 4 183))   (* q := totPkt(b); q[3] |= 0x20; q[4] = 183 *)
   | 12 => Some (AF.OSetHasSplice true)
@@ -127,13 +145,14 @@ Definition af_op (p0 : bytes) (op : Z) : option AF.op :=
   | 19 => if AF.get_bit p0 3 32 then Some (AF.OSetAF p0) else None   (* q := totPkt(b); only when q has the flag *)
   | _ => None
   end%Z.
-(* af.setters: one setter, then "the result must stay queryable": five getters and p.Payload() *)
+(* af.setters: n = 40*shape + 20*flag + op (Go int division and remainder: Z.quot / Z.rem); one setter, then
+   "the result must stay queryable": five getters and p.Payload() *)
 Definition g_af_setters (b : bytes) (n : Z) : cls :=
   let p0 := pkt_of b in
-  let p := if (20 <=? n)%Z then or_byte p0 3 32 else p0 in
+  let p := if (Z.rem (Z.quot n 20) 2 =? 1)%Z then or_byte p0 3 32 else p0 in
   if negb (AF.get_bit p 3 32) then COk else
   let after (q : bytes) := af_reads q >> cl (Packet.Payload_m q) in
-  match af_op p0 (Z.rem n 20) with
+  match af_op p0 p (Z.rem n 20) (Z.quot n 40) with
   | None => after p
   | Some o =>
     match AF.step p o with
@@ -173,24 +192,47 @@ Definition es_calls (e : Pmt.es) : cls :=
   let ds := map desc_conv (Pmt.descs e) in
   cl (PmtDesc.max_bit_rate ds) >> allc desc_calls ds.
 (* psi.pmt: NewPMT; per stream MaxBitRate and per descriptor every decoder.  Total: Pids, VersionNumber,
-   CurrentNextIndicator, PIDExists, the stream-type predicates (Model/StreamType.v), IsTTMLSubtitling,
-   RemoveElementaryStreams.  Not modelled: String(), Format(). *)
+   CurrentNextIndicator, PIDExists / IsPidForStreamWherePresentationLagsEbp (with n and with every PID of the PMT itself),
+   the stream-type predicates (Model/StreamType.v), IsTTMLSubtitling, RemoveElementaryStreams (of {n, 256}, of the PMT's
+   first PID, of all its PIDs).  Not modelled: String(), Format(). *)
 Definition g_psi_pmt (b : bytes) (n : Z) : cls :=
   on_ok (Pmt.new_pmt b) (fun p => allc es_calls (Pmt.streams p)).
 
 Definition g_psi_done (b : bytes) (n : Z) : cls := cl (Pmt.done_func b).
 Definition g_psi_crc (b : bytes) (n : Z) : cls := cl (Pmt.extract_crc b).
-(* psi.filter: the 188-byte chunks of b (or totPkt(b) when there is none), pids {n, 256, 257} *)
+(* packet.Pid *)
+Definition pid_at (p : bytes) : N := N.lor (N.shiftl (N.land (nthN p 1) 31) 8) (nthN p 2).
+(* totFilterPids: n < 10000 -> {n, 256, 257}; 10000+k -> 0 {0}  1 {pid of packet 0}  2 {0, pid of packet 0}  3 {}
+   4 / 5 / 6 first / last / all stream PIDs of NewPMT(concatenated payloads) (none when a payload is missing or NewPMT
+   fails)  7 {8190}.  A panic while the argument is prepared ends the Go function like any other. *)
+Definition filter_pids (pk : list bytes) (n : Z) : Res (list N) :=
+  if (n <? 10000)%Z || (10007 <? n)%Z then Ok [pid_of n; 256; 257] else
+  let pid0 := match pk with p :: _ => pid_at p | [] => 0 end in
+  let k := (n - 10000)%Z in
+  let? own :=
+    (if (4 <=? k)%Z && (k <=? 6)%Z then
+       match Pmt.concat_payloads pk with
+       | Ok pay => match Pmt.new_pmt pay with
+                   | Ok pm => Ok (Pmt.pids pm) | Err _ => Ok [] | Panic => Panic | Diverge => Diverge end
+       | Err _ => Ok [] | Panic => Panic | Diverge => Diverge
+       end
+     else Ok []) in
+  Ok (if (k =? 0)%Z then [0] else if (k =? 1)%Z then [pid0] else if (k =? 2)%Z then [0; pid0]
+      else if (k =? 3)%Z then [] else if (k =? 4)%Z then firstn 1 own else if (k =? 5)%Z then firstn 1 (rev own)
+      else if (k =? 6)%Z then own else [8190]).
+(* psi.filter: the 188-byte chunks of b (or totPkt(b) when there is none), the PID list selected by n *)
 Definition g_psi_filter (b : bytes) (n : Z) : cls :=
   let pk := match chunks b with [] => [pkt_of b] | l => l end in
-  cl (Pmt.filter_pmt_packets pk [pid_of n; 256; 257]).
+  on_ok (filter_pids pk n) (fun want => cl (Pmt.filter_pmt_packets pk want)).
 (* psi.readpat over bytes.NewReader(b): io.ReadFull delivers the 188-byte chunks, then EOF (nothing left) or
    ErrUnexpectedEOF (a partial packet left) *)
 Definition g_psi_readpat (b : bytes) (n : Z) : cls :=
   let tail := if (Nat.modulo (List.length b) 188 =? 0)%nat then E.EOF else E.UnexpectedEOF in
   on_ok (Pat.read_pat (map Pat.RFull (chunks b) ++ [Pat.RFail tail])) pat_getters.
-(* psi.readpmt: ReadPMT(reader, n); then Pids (total) and String() (not modelled) *)
-Definition g_psi_readpmt (b : bytes) (n : Z) : cls := cl (Pmt.read_pmt b (pid_of n)).
+(* psi.readpmt: ReadPMT(reader, n), n = -1: the PID of the first packet; then Pids (total) and String() (not modelled) *)
+Definition readpmt_pid (b : bytes) (n : Z) : N :=
+  if (n =? -1)%Z then (if 3 <=? len b then pid_at b else 0) else pid_of n.
+Definition g_psi_readpmt (b : bytes) (n : Z) : cls := cl (Pmt.read_pmt b (readpmt_pid b n)).
 
 (* ------------------------------------------------------------------ pes / ebp / scte35 *)
 (* pes.new: NewPESHeader (its getters read struct fields; %v / Format() are not modelled), then
